@@ -8,6 +8,7 @@ import (
 
 func init() {
 	verifRegister("VerifC13_KEncStr", VerifC13_KEncStr)
+	verifRegister("VerifC13_KEncKey", VerifC13_KEncKey)
 	verifRegister("VerifC13_KEncFloat", VerifC13_KEncFloat)
 	verifRegister("VerifC13_KEncInt", VerifC13_KEncInt)
 	verifRegister("VerifC13_KLoadNum", VerifC13_KLoadNum)
@@ -139,6 +140,40 @@ func VerifC13_KEncStr() {
 	dec, ok := refDecodeJSONString(out)
 	vAssert(ok, "the output is a syntactically valid JSON string literal")
 	vAssert(bytesEq(dec, wantDecoded(s)), "an independent decoder reads the literal back to the input (invalid bytes become U+FFFD)")
+	vCover("end")
+}
+
+// A map KEY is a string like any other: Dump of {key: 1} writes the key exactly as encodeString
+// writes the same string as a value -- same escapes, invalid bytes -> U+FFFD, U+2028/9 escaped --
+// so the document is valid JSON whatever bytes the key holds, and an independent decoder reads the
+// key back.  Keys of 0..n arbitrary bytes, given as string and as symbol.
+func VerifC13_KEncKey() {
+	n := vndChoice("len", vParam("maxlen", 2)+1)
+	s := vndString("s", n)
+	m := lisp.SortedMap()
+	if vndBool("symbolkey") && n > 0 {
+		m.Map().Set(lisp.Symbol(s), lisp.Int(1))
+	} else {
+		m.Map().Set(lisp.String(s), lisp.Int(1))
+	}
+	out, err := Dump(m, false)
+	vAssert(err == nil, "dumping a one-key map never fails")
+	enc := newEncoder(false)
+	vAssert(enc.encodeString(s) == nil, "encodeString never fails")
+	lit := enc.bytes()
+	want := append(append([]byte{'{'}, lit...), []byte(":1}")...)
+	vAssert(bytesEq(out, want), "a key is written exactly as the same string is written as a value")
+	vAssert(len(out) >= 6 && out[0] == '{' && out[len(out)-1] == '}' && out[len(out)-2] == '1' && out[len(out)-3] == ':', "object framing")
+	dec, ok := refDecodeJSONString(out[1 : len(out)-3])
+	vAssert(ok, "the key is a syntactically valid JSON string literal")
+	vAssert(bytesEq(dec, wantDecoded(s)), "an independent decoder reads the key back (invalid bytes become U+FFFD)")
+	for i := 1; i+3 < len(out); i++ {
+		c := out[i]
+		vAssert(c >= 0x20 && c != '<' && c != '>' && c != '&', "no raw control or html-sensitive character in a key")
+		if c == 0xe2 && i+2 < len(out) && out[i+1] == 0x80 {
+			vAssert(out[i+2] != 0xa8 && out[i+2] != 0xa9, "U+2028 / U+2029 are escaped in keys")
+		}
+	}
 	vCover("end")
 }
 
